@@ -166,6 +166,8 @@ pub fn run_security(rows: &[MRow], opening: Option<(Rat, Rat)>) -> MResult {
     // affiliates of this security (a split for everyone is expanded over them, ordered by id)
     let mut afs: Vec<String> = vec![];
     for r in rows { if let Some(a) = &r.af { if !afs.contains(a) { afs.push(a.clone()); } } }
+    // an opening position is a holding of the default affiliate (C16: it equals an opening purchase)
+    if let Some((s, _)) = &opening { if s.is_pos() && !afs.iter().any(|a| a == "default") { afs.push("default".into()); } }
     if afs.is_empty() { afs.push("default".into()); }
     afs.sort();
     let mut evs: Vec<Ev> = vec![];
